@@ -16,7 +16,7 @@ EXPLANATION = (
 RULES = {
     'R1': 'header-then-body gating in BlockValidator::validate_block; insert_block calls it',
     'R2': 'decision table of block::validate_block (4 checks gate Ok)',
-    'R3': 'ensure_unique_transactions: whole-slice iteration, per-transaction id, fail iff insert == false',
+    'R3': 'ensure_unique_transactions: whole-slice iteration, per-transaction id, fail iff insert == false (id must be witness-independent: ntxid / txid)',
 }
 ASSUMPTIONS = ['bitcoin::Block::check_merkle_root, Transaction::is_coinbase, compute_ntxid/compute_txid behave as documented']
 
